@@ -23,6 +23,8 @@ type cfNode struct {
 	gotoL    string
 	csp      string
 	line     int
+	kind     string      // statement kind of the node ("expr", "if", "while", …); "" for synthetic nodes
+	toks     []core.CTok // expr/return: the statement; if/while/do/switch: the condition
 }
 
 type cfGraph struct {
@@ -150,13 +152,13 @@ func (g *cfGraph) buildStmt(s *core.CStmt, next int, ctx cfCtx) int {
 		}
 		head := s.Toks[0].Text
 		if (head == "WUFFS_BASE__COROUTINE_SUSPENSION_POINT" || head == "WUFFS_BASE__COROUTINE_SUSPENSION_POINT_MAYBE_SUSPEND") && len(s.Toks) >= 3 {
-			return g.add(&cfNode{csp: s.Toks[2].Text, succ: []int{next}, line: s.Line})
+			return g.add(&cfNode{csp: s.Toks[2].Text, succ: []int{next}, line: s.Line, kind: "csp", toks: s.Toks})
 		}
 		if head == "WUFFS_BASE__COROUTINE_SUSPENSION_POINT_0" {
 			return next
 		}
 		u, d, k := usesDefs(s.Toks)
-		return g.add(&cfNode{use: u, def: d, kill: k, succ: []int{next}, line: s.Line})
+		return g.add(&cfNode{use: u, def: d, kill: k, succ: []int{next}, line: s.Line, kind: "expr", toks: s.Toks})
 	case "block":
 		return g.build(s.Body, next, ctx, nil)
 	case "if":
@@ -165,9 +167,9 @@ func (g *cfGraph) buildStmt(s *core.CStmt, next int, ctx cfCtx) int {
 		if s.Else != nil {
 			el = g.build(s.Else, next, ctx, nil)
 		}
-		return g.add(&cfNode{use: usesOf(s.Toks), succ: []int{th, el}, line: s.Line})
+		return g.add(&cfNode{use: usesOf(s.Toks), succ: []int{th, el}, line: s.Line, kind: "if", toks: s.Toks})
 	case "while", "for":
-		head := g.add(&cfNode{use: usesOf(s.Toks), line: s.Line})
+		head := g.add(&cfNode{use: usesOf(s.Toks), line: s.Line, kind: s.Kind, toks: s.Toks})
 		body := g.build(s.Body, head, cfCtx{brk: next, cont: head}, nil)
 		g.nodes[head].succ = []int{body}
 		if !(len(s.Toks) == 1 && (s.Toks[0].Is("true") || s.Toks[0].Is("1"))) {
@@ -175,7 +177,7 @@ func (g *cfGraph) buildStmt(s *core.CStmt, next int, ctx cfCtx) int {
 		}
 		return head
 	case "do":
-		cond := g.add(&cfNode{use: usesOf(s.Toks), line: s.Line})
+		cond := g.add(&cfNode{use: usesOf(s.Toks), line: s.Line, kind: "do", toks: s.Toks})
 		body := g.build(s.Body, cond, cfCtx{brk: next, cont: cond}, nil)
 		g.nodes[cond].succ = []int{next}
 		if !(len(s.Toks) == 1 && s.Toks[0].Is("0")) {
@@ -185,7 +187,7 @@ func (g *cfGraph) buildStmt(s *core.CStmt, next int, ctx cfCtx) int {
 	case "switch":
 		// the coroutine switch is entered at its top on a fresh call; resumption edges are
 		// what the recorded live sets are for. Other switches: any case may be entered.
-		sw := g.add(&cfNode{use: usesOf(s.Toks), line: s.Line})
+		sw := g.add(&cfNode{use: usesOf(s.Toks), line: s.Line, kind: "switch", toks: s.Toks})
 		body := g.build(s.Body, next, cfCtx{brk: next, cont: ctx.cont}, nil)
 		g.nodes[sw].succ = []int{body}
 		if core.CText(s.Toks) != "coro_susp_point" {
@@ -209,9 +211,9 @@ func (g *cfGraph) buildStmt(s *core.CStmt, next int, ctx cfCtx) int {
 		g.labels[s.Label] = id
 		return id
 	case "goto":
-		return g.add(&cfNode{gotoL: s.Label, line: s.Line})
+		return g.add(&cfNode{gotoL: s.Label, line: s.Line, kind: "goto"})
 	case "return":
-		return g.add(&cfNode{use: usesOf(s.Toks), line: s.Line})
+		return g.add(&cfNode{use: usesOf(s.Toks), line: s.Line, kind: "return", toks: s.Toks})
 	case "break":
 		return g.add(&cfNode{succ: []int{ctx.brk}, line: s.Line})
 	case "continue":
@@ -222,13 +224,13 @@ func (g *cfGraph) buildStmt(s *core.CStmt, next int, ctx cfCtx) int {
 
 func itoa(i int) string { return strconv.Itoa(i) }
 
-// cLiveAcross returns, for a generated coroutine body, the locals live right
-// after some suspension-point label, the set of locals assigned anywhere other
-// than their declaration, the declared C type of each local, and the number of
-// suspension points seen.
-func cLiveAcross(stmts []*core.CStmt) (live map[string][]string, assigned map[string]bool, ctype map[string]string, nCSP int) {
-	g := &cfGraph{labels: map[string]int{}}
-	exit := g.add(&cfNode{})
+// coroGraph builds the control-flow graph of a generated coroutine body up to
+// (excluding) its `suspend:` epilogue: every label from `suspend:` on is the
+// exit node, gotos are resolved, and the coroutine switch is entered at its
+// top only (resumption edges are what the per-label analyses are for).
+func coroGraph(stmts []*core.CStmt) (g *cfGraph, entry, exit int, body []*core.CStmt) {
+	g = &cfGraph{labels: map[string]int{}}
+	exit = g.add(&cfNode{})
 	// Everything from `suspend:` on is epilogue: saving the locals there is not a use
 	// that makes them live (it is the mechanism under test).
 	cut := len(stmts)
@@ -243,12 +245,8 @@ func cLiveAcross(stmts []*core.CStmt) (live map[string][]string, assigned map[st
 			g.labels[s.Label] = exit
 		}
 	}
-	// declarations (before the resume block) give the types; they are definitions executed on every entry
-	ctype = map[string]string{}
-	assigned = map[string]bool{}
-	body := stmts[:cut]
-	entry := g.build(body, exit, cfCtx{brk: exit, cont: exit}, nil)
-	_ = entry
+	body = stmts[:cut]
+	entry = g.build(body, exit, cfCtx{brk: exit, cont: exit}, nil)
 	for _, n := range g.nodes {
 		if n.gotoL != "" {
 			if id, ok := g.labels[n.gotoL]; ok {
@@ -258,6 +256,18 @@ func cLiveAcross(stmts []*core.CStmt) (live map[string][]string, assigned map[st
 			}
 		}
 	}
+	return g, entry, exit, body
+}
+
+// cLiveAcross returns, for a generated coroutine body, the locals live right
+// after some suspension-point label, the set of locals assigned anywhere other
+// than their declaration, the declared C type of each local, and the number of
+// suspension points seen.
+func cLiveAcross(stmts []*core.CStmt) (live map[string][]string, assigned map[string]bool, ctype map[string]string, nCSP int) {
+	g, _, _, body := coroGraph(stmts)
+	// declarations (before the resume block) give the types; they are definitions executed on every entry
+	ctype = map[string]string{}
+	assigned = map[string]bool{}
 	// types and assigned-ness
 	declared := map[string]bool{}
 	var scan func(list []*core.CStmt, top bool)
